@@ -26,7 +26,7 @@ def main():
         patch = open(os.path.join(d, "patch.diff"), errors="replace").read()
         files = sorted(set(re.findall(r"^\+\+\+ b/(\S+)", patch, re.M)))
         hunk = re.search(r"^@@ [^@]*@@ ?(.*)$", patch, re.M)
-        where = (hunk.group(1).strip()[:60] if hunk else "")
+        where = (hunk.group(1).strip()[:60] if hunk else "").replace("|", "/")
         res = []
         for r in m.get("ran", []):
             if r["caught"]:
